@@ -98,7 +98,8 @@ def cases(tier, seed):
     # the starting thread has ended; a later thread is given its ident by the system (idents are recycled)
     for st, tt, mode in itertools.product((0, 1), (0, 1), ('lazy', 'direct')):
         out.append({'k': 'recycled', 'sys': st, 'thr': tt, 'mode': mode})
-    for how in ('two-agents-first-leaves-first', 'two-agents-second-leaves-first', 'restart-inside-pending', 'restart-from-another-thread', 'reentrant-start', 'restart-same-agent'):
+    for how in ('two-agents-first-leaves-first', 'two-agents-second-leaves-first', 'restart-inside-pending', 'restart-from-another-thread', 'reentrant-start', 'restart-same-agent',
+                'restart-under-second-agent-first-leaves-first', 'restart-under-second-agent-second-leaves-first', 'shutdown-inside-start'):
         for st, tt in itertools.product((0, 1), (0, 1)):
             out.append({'k': 'lifecycle', 'how': how, 'sys': st, 'thr': tt})
     # a second start() / a shutdown() arriving while the first start() is still in progress (parked in a plugin's resource())
@@ -314,6 +315,12 @@ def lifecycle_case(ctx, desc):
                 state['deep'].start()          # what a signal handler does that arrives while start() waits for its first poll
             except BaseException as e:
                 obs['inner_start_exc'] = e
+        if how == 'shutdown-inside-start' and not state['again']:
+            state['again'] = True
+            try:
+                state['deep'].shutdown()       # a signal handler that stops the agent arrives while start() waits for its first poll
+            except BaseException as e:
+                obs['inner_start_exc'] = e
         if how == 'restart-same-agent' and req.current_hash == 'h1':
             return PollResponse(ts_nanos=1, current_hash='h1', response_type=ResponseType.NO_CHANGE)       # a faithful service: you have it already
         return PollResponse(ts_nanos=1, current_hash='h1', response_type=ResponseType.UPDATE,
@@ -339,6 +346,23 @@ def lifecycle_case(ctx, desc):
                     obs['live_keeps_hooks'] = (getattr(sys.gettrace(), '__self__', None) is live, getattr(threading.gettrace(), '__self__', None) is live) \
                         if how == 'two-agents-first-leaves-first' else None
                     second.shutdown()
+                elif how in ('restart-under-second-agent-first-leaves-first', 'restart-under-second-agent-second-leaves-first'):
+                    d2 = _second_deep(w)
+                    d.start()
+                    d2.start()
+                    d.shutdown()
+                    d.start()
+                    for x in ((d, d2) if how.endswith('first-leaves-first') else (d2, d)):
+                        x.shutdown()
+                    for _ in range(3):
+                        ns['touch']()
+                elif how == 'shutdown-inside-start':
+                    d.start()
+                    obs['started_after_start'] = d.started
+                    obs['hooks_after_start'] = (sys.gettrace(), threading.gettrace())
+                    obs['timers'] = [t.name for t in threading.enumerate() if t.name == 'Tracepoint Long Poll' and t.is_alive()]
+                    d.shutdown()
+                    ns['touch']()
                 elif how == 'restart-inside-pending':
                     d.start()
                     t0 = time.time()
@@ -409,6 +433,10 @@ def lifecycle_case(ctx, desc):
                       f'(sys, threading) hook: {obs["live_keeps_hooks"]}', desc)
     elif obs['after'][0] is not pre[0] or obs['after'][1] is not pre[1]:
         ctx.violation(f'C14/lifecycle/{how}/hooks-not-restored', f'{label}: after the last shutdown sys={name(obs["after"][0])} threading={name(obs["after"][1])}', desc)
+    elif how == 'shutdown-inside-start' and (obs.get('started_after_start') or obs['hooks_after_start'][0] is not pre[0] or obs['hooks_after_start'][1] is not pre[1]):
+        ctx.violation('C14/lifecycle/shutdown-inside-start/agent-live-after-shutdown', f'{label}: shutdown() was called (and returned) while start() was in progress on the same thread; '
+                      f'after start() returned: started={obs.get("started_after_start")}, hooks sys={name(obs["hooks_after_start"][0])} threading={name(obs["hooks_after_start"][1])}, '
+                      f'poll timers alive {obs.get("timers")}', desc)
     elif how == 'restart-same-agent' and (obs.get('sent_first') != 2 or obs.get('sent_second') != 2):
         ctx.violation('C14/lifecycle/restart-same-agent/tracepoints-not-acting-after-restart', f'{label}: a service tracepoint and a registered one, each hit once per run: '
                       f'{obs.get("sent_first")} snapshots before shutdown(); start(), {obs.get("sent_second")} after (hashes the polls reported: {obs.get("reported")})', desc)
